@@ -110,12 +110,10 @@ theorem C12_source_make_file_type_map (X : Ext) (split : String → Option (Stri
         | some rp =>
           obtain ⟨rd, p⟩ := rp
           rw [hsp] at hs
-          have hany := anyM_keys rd acc
+          have hany := memOf_keys rd acc
           cases hmem : (acc.any fun e => e.1 == rd) with
           | false =>
-            simp [Inv, hs, bindAll, St.set, e1, e2, List.lookup]
-            rw [hany _ (by intro k; simp [Val.eqv])]
-            simp [Inv, e1, e2, List.lookup, hmem, addPattern_new acc rd p hmem, strList]
+            simp [Inv, hs, bindAll, St.set, e1, e2, List.lookup, hany, hmem, addPattern_new acc rd p hmem, strList]
           | true =>
             obtain ⟨i, ps, h1, h2, h3, h4, h5⟩ := addPattern_sim acc rd p hmem
             have h0 : ¬ ((i : Int) < 0) := by omega
@@ -123,9 +121,8 @@ theorem C12_source_make_file_type_map (X : Ext) (split : String → Option (Stri
             simp only [strList, List.map_append, List.map_cons, List.map_nil] at h4'
             have h3' : (acc.map fun e => strList e.2)[i]? = some (.list (ps.map .str)) := h3
             have hidx := indexOf_map_nat (fun e : String × List String => strList e.2) acc i
-            simp [Inv, hs, bindAll, St.set, e1, e2, List.lookup]
-            rw [hany _ (by intro k; simp [Val.eqv])]
-            simp [Inv, e1, e2, List.lookup, hmem, h1, indexOf, h0, h3', listSet, h2, h4', h5, strList]
+            simp [Inv, hs, bindAll, St.set, e1, e2, List.lookup, hany, hmem, h1, indexOf, h0, h3', listSet, h2, h4', h5,
+              strList]
             refine ⟨?_, ?_⟩
             · have := congrArg (List.map Val.str) h5
               simp only [List.map_map] at this
